@@ -136,7 +136,7 @@ static int runChild(const std::vector<Value>& files, size_t from, size_t to, con
     for (size_t k = from; k < to; k++)
     {
       SH->cur = (int)k;
-      struct itimerval tv = {{0, 0}, {4, 0}};
+      struct itimerval tv = {{0, 0}, {getenv("NF_ALARM") ? atoi(getenv("NF_ALARM")) : 8, 0}};
       setitimer(ITIMER_REAL, &tv, nullptr);
       struct timeval t0, t1;
       gettimeofday(&t0, nullptr);
@@ -196,7 +196,10 @@ int main(int argc, char** argv)
     ndeaths++;
     // confirm on the single file in a fresh child
     Value rec = deathRecord(files[died], st, stage);
-    if ((size_t)died > next)
+    rec["batch_from"] = Value((int)next);       // index (in the input list) of the first file processed by the dead child
+    rec["index"] = Value(died);
+    // (a sanitizer build stops at the first bad access: the file being processed is the culprit)
+    if ((size_t)died > next && !getenv("NF_NO_CONFIRM"))
     {
       int st2 = 0;
       int d2 = runChild(files, (size_t)died, (size_t)died + 1, outp, tmp, &st2);
